@@ -86,11 +86,18 @@ func genOffline(r *rng, index int) *Spec {
 			sp.Timeline = append(sp.Timeline, TLEvent{AtMs: at + 8000, Kind: "lag", Host: h, N: int64(r.pickInt(0, 20))})
 		}
 	}
-	if r.chance(0.15) {
+	if r.chance(0.2) {
 		sp.hostSpecByName(master).Init = &InitState{Offline: pb(true)}
-		if r.chance(0.4) {
+		if r.chance(0.5) {
 			sp.Timeline = append(sp.Timeline, TLEvent{AtMs: 50, Kind: "zk_set", Arg: "/test/recovery/" + master, Arg2: "null"})
 		}
+		if r.chance(0.5) {
+			// the manager is not the master's own daemon
+			sp.Hosts[1].StartDelayMs = 30
+			sp.Hosts[0].StartDelayMs = 2500
+			script = append(script, "manager_on="+sp.Hosts[1].Name)
+		}
+		script = append(script, "master_offline")
 	}
 	if r.chance(0.3) {
 		// the master turns read-only at the very moment a replica's lag crosses the enable threshold
